@@ -44,7 +44,8 @@ func runC20(idx int, rng *rand.Rand, tier string) []Case {
 	methods := []string{"GET", "POST", "PUT"}
 	urls := []string{"http://a/", "http://b/x", "http://c/?q=1"}
 	codes := []uint16{200, 201, 404, 500, 0}
-	msgs := []string{"", "500 Internal Server Error", "EOF", "timeout"}
+	long := "Get \"http://a-rather-long-host-name.example.com:8080/with/a/long/path/that/goes/on/and/on/and/on?and=a&query=string&of=some&length=too\": "
+	msgs := []string{"", "500 Internal Server Error", "EOF", "timeout", long + "context deadline exceeded", long + "connection refused"}
 	concurrent := idx%3 == 0
 	rs := make([]vegeta.Result, n)
 	for i := range rs {
@@ -128,7 +129,14 @@ func runC20(idx int, rng *rand.Rand, tier string) []Case {
 	}
 	mfs, err := reg.Gather()
 	if err != nil {
-		panic(err)
+		// the registry refuses to export what Observe left behind: an observation, not a harness fault
+		var bad Case
+		bad.W.Z(2)
+		bad.W.I(n)
+		bad.Tag = "prom.gather;nt"
+		bad.Dist = "gather failed"
+		bad.Sample = map[string]interface{}{"results": n, "concurrent": concurrent, "gather_error": err.Error()}
+		return []Case{bad}
 	}
 	fam := map[string]*dto.MetricFamily{}
 	for _, mf := range mfs {
